@@ -422,10 +422,11 @@ def extract_loopfn(repo, ent):
     header = text[:ob]
     inner = text[ob + 1:text.rindex('}')]
     hits = [m for m in re.finditer(ent['loop_start'], inner, flags=re.M)]
-    if len(hits) != 1:
+    occ = ent.get('loop_occurrence')
+    if occ is None and len(hits) != 1 or occ is not None and len(hits) < occ:
         raise ExtractError('%s: loop_start /%s/ matches %d times in %s'
                            % (ent['file'], ent['loop_start'], len(hits), ent['id']))
-    ls = hits[0].start()
+    ls = hits[(occ or 1) - 1].start()
     mkw = re.compile(r'\b(for|while|do)\b').search(inner, ls)
     if not mkw:
         raise ExtractError('no loop keyword at loop_start')
